@@ -80,7 +80,7 @@ func (h *Handler) spoofLoop(addr packet.Addr) {
 	nTimes := 0
 	for {
 		h.arpMutex.Lock()
-		targetAddr, hunting := h.findHuntByIP(addr.IP)
+		targetAddr, hunting := h.huntList[string(addr.MAC)] // the hunt list is keyed by MAC (StartHunt / StopHunt)
 		h.arpMutex.Unlock()
 
 		if !hunting || h.closed {
